@@ -10,6 +10,7 @@ MAX_RECURSION_DEPTH for every node kind, and argument-type confusion over every 
 from __future__ import annotations
 
 import collections
+import copy
 import gc
 import hashlib
 import pickle
@@ -46,7 +47,7 @@ REAL_VS_STUB = {
              'CPython containers and allocator (malloc under ASan)'],
     'stub_or_simulator_owned': ['all user callbacks', 'which container is mutated how at which callback', 'GC timing'],
 }
-EXPECTED_PROBES = ('liar-sweep', 'mismatch-sweep', 'mut:rotate', 'index-sweep', 'leafcount-sweep', 'mut:delete_front', 'mut:delete_back', 'mut:clear', 'mut:append', 'mut:replace', 're:iter_next',
+EXPECTED_PROBES = ('state:field', 'state:bytes-flip', 'state:drop-node', 'state-load:loaded', 'state-load:rejected', 'liar-sweep', 'mismatch-sweep', 'mut:rotate', 'index-sweep', 'leafcount-sweep', 'mut:delete_front', 'mut:delete_back', 'mut:clear', 'mut:append', 'mut:replace', 're:iter_next',
                    're:flatten', 're:unflatten', 're:register', 're:gc', 're:dictmode', 'outcome:exception', 'outcome:consistent')
 
 TRAVERSALS = ('flatten', 'flatten_with_path', 'iter', 'flatten_up_to', 'map', 'map_with_path', 'broadcast_prefix',
@@ -73,6 +74,8 @@ def jobs(tier, seed, flavours):
             yield {'kind': 'reentry', 'i': i, 'seed': seed, 'flavour': fl}
             if i % 3 == 0:
                 yield {'kind': 'confusion', 'i': i, 'seed': seed, 'flavour': fl}
+            if i % 3 == 1:
+                yield {'kind': 'state', 'i': i, 'seed': seed, 'flavour': fl}
         i += 1
 
 
@@ -981,12 +984,192 @@ def run_confusion(job, io):
     return out
 
 
+# -------------------------------------------------------------------------------------------------- stored state
+# The durable form of a treespec is its pickled state.  "Disk faults" for a library: one field of a genuinely pickled state
+# is changed (a flipped stored value), nodes are dropped / duplicated / swapped (a torn or reordered write), or bytes of the
+# pickle stream itself are flipped / truncated.  Loading may fail with any Python exception; if it succeeds the treespec is
+# used through every method.  Oracle: memory safety only (process survival, sanitizer silence, no hang).
+STATE_FIELDS = ('kind', 'arity', 'node_data', 'entries', 'custom_type', 'num_leaves', 'num_nodes', 'original_keys')
+STATE_CORRUPTIONS = ('field', 'field', 'field', 'drop-node', 'dup-node', 'swap-nodes', 'truncate', 'empty', 'flag', 'bytes-flip', 'bytes-truncate',
+                     'node-width')
+
+
+def corrupt_value(t, fi, cur):
+    if fi == 0:  # kind
+        return t.choice((0, 1, 2, 3, 4, 5, 6, 7, 8, 9, 10, 11, -1, 99), 'kind-val')
+    if fi in (1, 5, 6):  # arity / num_leaves / num_nodes
+        base = cur if isinstance(cur, int) else 0
+        return t.choice((-1, 0, base - 1, base + 1, base + 2, 1, 2, 1000, 2 ** 31, -2 ** 31, 2 ** 40, 2 ** 62, -2 ** 63), 'count-val')
+    if fi == 2:  # node_data
+        return t.choice((None, [], ['only'], ['a', 'b', 'c', 'd', 'e', 'f', 'g', 'h', 'i', 'j'], (int, []), (None, ['x'] * 9), (1,), (), 3, -1, 2 ** 62,
+                         int, U.NT1, time_struct(), dict, 'str', {'a': 1}, U.NT0, object()), 'data-val')
+    if fi == 3:  # entries
+        return t.choice((None, (), (0,), tuple(range(12)), [0, 1], 'ab', 7), 'entries-val')
+    if fi == 4:  # custom type
+        return t.choice((None, U.CA, U.CB, int, list, 'CA', U.NT1), 'type-val')
+    return t.choice((None, [], ['zz'], ['a', 'b', 'c', 'd', 'e', 'f', 'g', 'h', 'i', 'j'], ('a',), 5), 'okeys-val')
+
+
+def time_struct():
+    import time as _time
+    return _time.struct_time
+
+
+def exercise_spec(sp, io, site, tape, probes):
+    """Use a treespec that loading accepted through (nearly) every method.  Exceptions are fine."""
+    def attempt(name, fn):
+        io.progress({'site': '%s/%s' % (site, name), 'tape': tape.values})
+        try:
+            fn()
+            probes['state-use:ok'] += 1
+        except RecursionError:
+            probes['state-use:exc'] += 1
+        except BaseException as e:  # noqa: BLE001
+            if isinstance(e, (KeyboardInterrupt, SystemExit)):
+                raise
+            probes['state-use:exc'] += 1
+
+    n = [0]
+
+    def nl():
+        n[0] = sp.num_leaves
+    attempt('num_leaves', nl)
+    k = max(0, min(n[0] if isinstance(n[0], int) else 0, 5000))
+    attempt('repr', lambda: repr(sp))
+    attempt('hash', lambda: hash(sp))
+    attempt('eq', lambda: (sp == sp, sp != optree.tree_structure([0])))
+    attempt('counts', lambda: (sp.num_nodes, sp.num_children, sp.kind, sp.type, len(sp), sp.none_is_leaf, sp.namespace))
+    attempt('paths', sp.paths)
+    attempt('accessors', sp.accessors)
+    attempt('entries', sp.entries)
+    attempt('children', sp.children)
+    attempt('child0', lambda: sp.child(0))
+    attempt('child-1', lambda: sp.child(-1))
+    attempt('entry0', lambda: sp.entry(0))
+    attempt('one_level', sp.one_level)
+    attempt('is_leaf', lambda: (sp.is_leaf(), sp.is_leaf(strict=False), sp.is_one_level()))
+    attempt('unflatten', lambda: sp.unflatten(list(range(k))))
+    attempt('unflatten_iter', lambda: sp.unflatten(iter(range(k))))
+    attempt('walk', lambda: sp.walk(list(range(k)), lambda tp, meta, ch: ch, None))
+    attempt('traverse', lambda: sp.traverse(list(range(k)), lambda ch: list(ch), None))
+    attempt('compose', lambda: repr(sp.compose(sp)) if k < 60 else None)
+    attempt('compose_other', lambda: repr(optree.tree_structure([0, (1, 2)]).compose(sp)))
+    attempt('is_prefix', lambda: (sp.is_prefix(sp), sp.is_suffix(sp), sp <= sp, sp < sp))
+    attempt('common_suffix', lambda: sp.broadcast_to_common_suffix(sp))
+    attempt('common_suffix_other', lambda: optree.tree_structure([0, 1]).broadcast_to_common_suffix(sp))
+    attempt('flatten_up_to', lambda: sp.flatten_up_to([0, (1, 2), {'a': 3}]))
+    attempt('transform', lambda: repr(optree.treespec_transform(sp, lambda x: x, lambda x: x)))
+    attempt('pickle-again', lambda: pickle.loads(pickle.dumps(sp)))
+    attempt('copy', lambda: (copy.copy(sp), copy.deepcopy(sp)))
+    attempt('getstate', sp.__getstate__)
+    attempt('from_collection', lambda: repr(optree.treespec_from_collection([sp, {'k': sp}])))
+    attempt('tuple-of', lambda: repr(optree.treespec_tuple([sp, sp])))
+    attempt('transpose', lambda: optree.tree_transpose(sp, optree.tree_structure((0, 0)), sp.unflatten([(i, i) for i in range(k)])))
+    attempt('gc', lambda: gc.collect())
+
+
+def run_state(job, io):
+    tape = Tape(replay=job['tape']) if 'tape' in job else Tape(seed=derive_seed(job.get('seed', 0), PROPERTY, 'st', job['i']))
+    violations, keys, probes = [], set(), collections.Counter()
+    reg = Registry()
+    ns = tape.choice(('ns', ''), 'st-ns')
+    n_loaded = 0
+    try:
+        for cls in U.CUSTOM_CLASSES[:3]:
+            reg.register(cls, ns if ns else GLOBAL, style=tape.draw(3, 'style'))
+        ctx = gen.swarm_ctx(tape)
+        n_rounds = 2 + tape.draw(4, 'st-rounds')
+        for r in range(n_rounds):
+            tree = gen.gen_tree(tape, 2 + tape.draw(16, 'st-budget'), ctx)
+            nil = bool(tape.draw(2, 'st-nil'))
+            spec = optree.tree_structure(tree, none_is_leaf=nil, namespace=ns)
+            state = spec.__getstate__()
+            nodes = [list(n) for n in state[0]]
+            how = tape.choice(STATE_CORRUPTIONS, 'st-how')
+            probes['state:' + how] += 1
+            detail = how
+            loader = None
+            if how == 'field':
+                j = tape.draw(len(nodes), 'st-node') if tape.draw(3, 'st-root') else len(nodes) - 1
+                fi = tape.draw(len(STATE_FIELDS), 'st-field')
+                if fi < len(nodes[j]):
+                    nodes[j][fi] = corrupt_value(tape, fi, nodes[j][fi])
+                detail = 'field:' + STATE_FIELDS[fi]
+                if tape.draw(4, 'st-second') == 3:  # a second field of the same node, so that pairs of counts stay "consistent"
+                    fi2 = tape.draw(len(STATE_FIELDS), 'st-field2')
+                    if fi2 < len(nodes[j]):
+                        nodes[j][fi2] = corrupt_value(tape, fi2, nodes[j][fi2])
+            elif how == 'drop-node':
+                del nodes[tape.draw(len(nodes), 'st-node')]
+            elif how == 'dup-node':
+                j = tape.draw(len(nodes), 'st-node')
+                nodes.insert(j, list(nodes[j]))
+            elif how == 'swap-nodes':
+                a, b = tape.draw(len(nodes), 'st-a'), tape.draw(len(nodes), 'st-b')
+                nodes[a], nodes[b] = nodes[b], nodes[a]
+            elif how == 'truncate':
+                nodes = nodes[:tape.draw(len(nodes), 'st-cut')]
+            elif how == 'empty':
+                nodes = []
+            elif how == 'node-width':
+                j = tape.draw(len(nodes), 'st-node')
+                nodes[j] = nodes[j][:tape.draw(9, 'st-width')] if tape.draw(2, 'st-grow') else nodes[j] + [None]
+            if how == 'flag':
+                new_state = (state[0], tape.choice((not state[1], None, 2, 'x'), 'st-flag'), tape.choice((state[2], 'other', '', None, 5), 'st-nsval'))
+            else:
+                new_state = (tuple(tuple(n) for n in nodes), state[1], state[2])
+            if how in ('bytes-flip', 'bytes-truncate'):
+                blob = bytearray(pickle.dumps(spec, protocol=tape.choice((2, 3, 4, 5), 'st-proto')))
+                if how == 'bytes-flip':
+                    for _ in range(1 + tape.draw(2, 'st-nflip')):
+                        pos = tape.draw(len(blob), 'st-pos')
+                        blob[pos] ^= 1 << tape.draw(8, 'st-bit')
+                else:
+                    del blob[tape.draw(len(blob), 'st-cutb'):]
+
+                def loader(blob=bytes(blob)):
+                    return pickle.loads(blob)
+            site = 'state:%s' % detail
+            io.progress({'site': site + '/load', 'tape': tape.values})
+            sp = None
+            try:
+                if loader is not None:
+                    sp = loader()
+                else:
+                    sp = optree.PyTreeSpec.__new__(optree.PyTreeSpec)  # exactly what the unpickler does: new object, then its state
+                    sp.__setstate__(new_state)
+                oc = 'loaded'
+            except RecursionError:
+                oc = 'rejected'
+            except BaseException as e:  # noqa: BLE001
+                if isinstance(e, (KeyboardInterrupt, SystemExit)):
+                    raise
+                oc = 'rejected'
+            probes['state-load:' + oc] += 1
+            keys.add('st|%s|%s' % (detail, oc))
+            if oc == 'loaded' and type(sp).__name__ == 'PyTreeSpec':
+                n_loaded += 1
+                exercise_spec(sp, io, site, tape, probes)
+            del sp
+    finally:
+        reg.unregister_all()
+    dig = hashlib.sha256(repr(sorted(keys)).encode()).hexdigest()
+    out = {'digest': dig, 'violations': violations, 'keys': sorted(keys), 'steps': n_rounds, 'probes': dict(probes),
+           'faults_cfg': {'stored-state': 1}, 'faults_fired': {'stored-state': n_rounds},
+           'sample': None, 'extra': {'state_corruptions': n_rounds, 'state_corruptions_accepted': n_loaded}}
+    if job.get('_min') or job.get('_stream_tape'):
+        out['tape'] = tape.values
+    return out
+
+
 def run_job(job, io):
     kind = job.get('kind', 'reentry')
     if kind == 'depth':
         return run_depth(job, io)
     if kind == 'confusion':
         return run_confusion(job, io)
+    if kind == 'state':
+        return run_state(job, io)
     return run_reentry(job, io)
 
 
